@@ -69,9 +69,12 @@ def cli_case(wd, sd, i, accepted):
     c = fuzz_case(sd, i)
     base = "c%d" % i
     rp = wd.write(base + "/r.guard", c["rules"])
-    dp = wd.write(base + "/d.json", c["data"])
+    dp = wd.write(base + ("/d.yaml" if c["kind"] == "adv-yaml" else "/d.json"), c["data"])
     tp = wd.write(base + "/t.json", c["template"])
-    tests = "- name: one\n  input: %s\n  expectations:\n    rules: {}\n" % (c["data"].replace("\n", " ") or "{}")
+    if c["kind"] == "adv-yaml":
+        tests = "- name: one\n  input:\n%s  expectations:\n    rules: {}\n" % "".join("    " + x + "\n" for x in c["data"].split("\n"))
+    else:
+        tests = "- name: one\n  input: %s\n  expectations:\n    rules: {}\n" % (c["data"].replace("\n", " ") or "{}")
     tsp = wd.write(base + "/r_tests.yaml", tests)
     out = []
     for cmd, args in (("validate", ["validate", "-r", rp, "-d", dp, "--structured", "-o", "json", "-S", "none"]),
@@ -145,12 +148,9 @@ def key_of(line, name):
 
 def validate(res, lines, label):
     tr = os.path.join(WORK, "trace_C08_%s.ndjson" % label)
-    for k, l in enumerate(lines):
-        l["i0"] = l["i"]
-        l["i"] = k + 1
     with open(tr, "w") as f:
-        for l in lines:
-            f.write(json.dumps({k: v for k, v in l.items() if not k.startswith("_")}) + "\n")
+        for k, l in enumerate(lines):
+            f.write(json.dumps(dict({a: b for a, b in l.items() if not a.startswith("_")}, i=k + 1)) + "\n")
     r = tlc("TraceLifecycle", env={"TRACE": tr}, workers=1, timeout=3000, tag="tr_C08", heap="6g")
     if "TRACE-REJECTED" in r["out"] or not r["ok"]:
         log(r["out"][-3000:])
@@ -166,7 +166,7 @@ def validate(res, lines, label):
             res.add("traces_validated_against_impl")
         else:
             line = lines[i - 1]
-            case = line.get("_case") or fuzz_case(line.get("_seed", 0), line["i0"])
+            case = line.get("_case") or fuzz_case(line.get("_seed", 0), line["i"])
             res.violation(key_of(line, name), {"relation": name, "line": {k: v for k, v in line.items() if k != "_case"}, "case": case})
     os.remove(tr)
 
@@ -207,8 +207,9 @@ def run(tier):
     for chunk in range(0, len(lines), 20000):
         validate(res, lines[chunk:chunk + 20000], "lib")
     # 3. the same cases through the real binary
-    step = 8 if tier == "quick" else 40
-    picks = [i for i in range(n) if i % step in (1, 2, 4)][: (240 if tier == "quick" else 3000)]
+    want = {"cycle", "mut-rules", "adversarial", "adv-yaml", "known-invalid", "mut-data"}
+    stride = 3 if tier == "quick" else 12
+    picks = [l["i"] for k, l in enumerate(lines) if l["kind"] in want and (l["i"] // 10) % stride == 0][: (420 if tier == "quick" else 4000)]
     wd = cli.Workdir("c08")
     cli.guard_bin()
     clines = []
